@@ -13,7 +13,7 @@
 (* undefined / duplicated / keyword-like labels, huge literals, stray          *)
 (* operands and truncated instructions.                                        *)
 EXTENDS Integers, Sequences, FiniteSets, TLC, Json, IOUtils, SequencesExt
-CONSTANT MaxAsmLen
+CONSTANTS MaxAsmLen, ScaleSizes
 
 Pool == {"a", "b", "f"}
 GDecl == {"", "var a;", "var b;", "val a = 1;", "val b = a;", "val a = b;", "array a[2];", "array b[a];", "array a[0];", "val f = 2;", "val a = 4294967297;", "val b = #;"}
@@ -35,11 +35,43 @@ AsmItems == {"a", "b", "LDAC", "DATA 1", "DATA 99999999999999999999", "DATA -214
              "7", "-", "LDAC -", "FUNC a", "PROC", "PROC b", "LDAC 4294967296", "BRZ LDAC", "a a", "STAI -0", "# c", "LDAP a", "OPR a", "DATA a", "FUNC LDAC", "LDAC -2147483648", "LDAM 2147483648", "BR 6442450944", "LDAC 18446744073709551616"}
 AsmPrograms == UNION {[1..n -> AsmItems] : n \in 0..MaxAsmLen}
 
+\* ---- scale: sources of the form  pre . rep^n . mid . postrep^n . post  ("@" in rep / postrep is the repetition index), for n in
+\* ScaleSizes.  Every recursion and every buffer of the tools is driven by one of these dimensions: nesting depth of each construct,
+\* length of a chain, of a comment run, of a token, of a list, number of names, size of the image.
+Sh(id, pre, rep, mid, postrep, post) == [id |-> id, pre |-> pre, rep |-> rep, mid |-> mid, postrep |-> postrep, post |-> post]
+XScaleShapes == {
+  Sh("paren", "var x;\nproc main() is x := ", "(", "1", ")", "\n"), Sh("chain", "var x;\nproc main() is x := ", "x + ", "1", "", "\n"),
+  Sh("orchain", "var x;\nproc main() is x := ", "x or ", "true", "", "\n"), Sh("nest", "var x;\nproc main() is ", "{ ", "skip", " }", "\n"),
+  Sh("ifs", "var x;\nproc main() is ", "if x = 0 then skip else ", "skip", "", "\n"), Sh("thens", "var x;\nproc main() is ", "if x = 0 then ", "skip", " else skip", "\n"),
+  Sh("unary", "var x;\nproc main() is x := ", "-(", "1", ")", "\n"), Sh("nots", "var x;\nproc main() is x := ", "~(", "x", ")", "\n"),
+  Sh("while", "var x;\nproc main() is ", "while x = 0 do ", "skip", "", "\n"),
+  Sh("idx", "var x;\narray a[2];\nproc main() is x := ", "a[", "1", "]", "\n"), Sh("call", "var x;\nproc main() is x := ", "f(", "1", ")", "\nfunc f(val v) is return v\n"),
+  Sh("valparen", "val v = ", "(", "1", ")", ";\nproc main() is 0(v)\n"), Sh("valchain", "val v = ", "1 + ", "1", "", ";\nproc main() is 0(v)\n"),
+  Sh("comments", "", "| c\n", "proc main() is skip\n", "", ""), Sh("blank", "", "\n", "proc main() is skip\n", "", ""),
+  Sh("commenteof", "proc main() is skip\n|", "c", "", "", ""),
+  Sh("seq", "var x;\nproc main() is { ", "x := x + 1; ", "skip }\n", "", ""), Sh("longid", "var x", "y", ";\nproc main() is skip\n", "", ""),
+  Sh("longnum", "proc main() is 0(", "9", ")\n", "", ""), Sh("longhex", "proc main() is 0(#", "F", ")\n", "", ""),
+  Sh("longstr", "proc main() is p(\"", "a", "\")\nproc p(array s) is skip\n", "", ""), Sh("openstr", "proc main() is p(\"", "a", "", "", ""),
+  Sh("args", "proc main() is p(1", ", 1", ")\nproc p(val a) is skip\n", "", ""), Sh("formals", "proc main() is skip\nproc p(val a", ", val b@", ") is skip\n", "", ""),
+  Sh("vars", "", "var v@;\n", "proc main() is v1 := 1\n", "", ""), Sh("vals", "val v0 = 1;\n", "val w@ = v0 + 1;\n", "proc main() is 0(w1)\n", "", ""),
+  Sh("procs", "proc main() is skip\n", "proc p@() is skip\n", "", "", ""), Sh("locals", "proc main() is ", "var l@; ", "skip\n", "", ""),
+  Sh("bigarray", "array a[1", "0", "];\nproc main() is a[0] := 1\n", "", ""), Sh("strings", "proc main() is { ", "p(\"s@\"); ", "skip }\nproc p(array s) is skip\n", "", ""),
+  Sh("consts", "var x;\nproc main() is { ", "x := 100000 + @; ", "skip }\n", "", "")}
+AScaleShapes == {
+  Sh("comments", "", "# c\n", "LDAC 0\n", "", ""), Sh("commentsblank", "", "# c\n\n", "LDAC 0\n", "", ""), Sh("blank", "", "\n", "LDAC 0\n", "", ""),
+  Sh("commenteof", "LDAC 0\n#", "c", "", "", ""), Sh("trailingcomments", "LDAC 0\n", "# c\n", "", "", ""),
+  Sh("instrs", "", "LDAC 0\n", "", "", ""), Sh("labels", "", "l@\n", "LDAC 0\n", "", ""), Sh("labelrefs", "", "BR l@\nl@\n", "LDAC 0\n", "", ""),
+  Sh("fwd", "BR end\n", "LDAC 0\n", "end\nLDAC 0\n", "", ""), Sh("back", "top\n", "LDAC 0\n", "BR top\n", "", ""), Sh("data", "", "DATA @\n", "", "", ""),
+  Sh("longid", "BR ", "x", "\n", "", ""), Sh("longnum", "LDAC ", "9", "\n", "", ""), Sh("minus", "LDAC ", "-", "1\n", "", ""), Sh("spaces", "LDAC", " ", "1\n", "", ""),
+  Sh("procs", "", "PROC p@\nOPR BRB\n", "", "", ""), Sh("samelabel", "", "l\n", "BR l\n", "", ""), Sh("fwdrefs", "", "BR end\n", "end\n", "", ""),
+  Sh("absrefs", "BR go\n", "d@\nDATA @\n", "go\n", "LDAM d@\n", "")}
+Scale(shapes) == [sizes |-> SetToSeq(ScaleSizes), shapes |-> SetToSeq(shapes), size |-> Cardinality(shapes) * Cardinality(ScaleSizes)]
+
 \* serialisation (one evaluation).  XPrograms is a plain product of its component sets, so the components are
 \* handed over and the replay side forms the product (all of it in the thorough tier, a seeded uniform sample of it
 \* in the quick tier: 831,600 members take TLC minutes to print); AsmPrograms is printed in full.
 ASSUME IOEnv.XOUT = "" \/ ndJsonSerialize(IOEnv.XOUT, <<[gdecl |-> SetToSeq(GDecl), proc |-> SetToSeq(ProcDecl), shapes |-> SetToSeq(Shapes),
-                                                         pool |-> SetToSeq(Pool),
+                                                         pool |-> SetToSeq(Pool), scale |-> Scale(XScaleShapes), ascale |-> Scale(AScaleShapes),
                                                          size |-> Cardinality(GDecl) * Cardinality(GDecl) * Cardinality(ProcDecl) * Cardinality(Shapes)
                                                                   * Cardinality(Pool) * Cardinality(Pool) * Cardinality(Pool)]>>)
 ASSUME IOEnv.AOUT = "" \/ ndJsonSerialize(IOEnv.AOUT, SetToSeq(AsmPrograms))
